@@ -210,11 +210,12 @@ def deps_of(vfile_rel):
         p = os.path.join(COQ, f)
         if not os.path.exists(p):
             continue
-        txt = strip_comments(open(p).read())
-        for m in re.finditer(r'(?:From\s+SageVerif\s+)?Require\s+(?:Import|Export)?\s*([^.]*(?:\.[A-Za-z_][\w.]*)*)\s*\.', txt):
-            for name in m.group(1).split():
-                name = name.strip()
-                if not name:
+        txt = strip_comments(open(p).read()) + '\n'
+        # a vernacular sentence ends with a period followed by white space; module names contain periods not followed by it
+        for m in re.finditer(r'(?:From\s+([\w.]+)\s+)?Require\s+(?:Import\s+|Export\s+)?(.*?)\.(?=\s)', txt, re.S):
+            prefix = m.group(1) or ''
+            for name in m.group(2).split():
+                if prefix and prefix != 'SageVerif':
                     continue
                 name = name.replace('SageVerif.', '')
                 cand = 'theories/' + name.replace('.', '/') + '.v'
